@@ -51,35 +51,34 @@ def advance_rules(rep, ctx, mod, prefix=""):
     if nf and START is not None and NORMAL is not None:
         F = ctx.facts(nf)
         M = Matcher(nf)
-        ty = ("load", ("field", RD, "curr_file_type", ("param", 0)))
-        tracked = {"start": ("eq", ty, START), "normal": ("eq", ty, NORMAL)}
-        ps = PathStates(nf, F, tracked, correlate=True)
+        ctype = ("load", ("field", RD, "curr_file_type", ("param", 0)))
         calls = list(nf.calls("lha_basic_reader_next_file"))
         rep.check(rid, len(calls) == 1, "one advance site", nf.file, "%d" % len(calls), function=nf.cname, obj="sites")
-        for c in calls:
-            sts = ps.at_block(c.block.id)
-            bad = [s_ for s_ in sts if not (holds(s_, "start") or holds(s_, "normal"))]
-            rep.check(rid, bool(sts) and not bad, "the input is advanced only under curr_file_type == START or == NORMAL", c.where(),
-                      None if not bad else "reachable in state %s: after a re-presented directory (or a deferred link) the pending member would be skipped" % show(bad)[:3],
-                      function=nf.cname, obj="advance-only")
-            # and whenever it is START/NORMAL: the blocks that bypass the call carry the refutation of both
-            stores = stores_to_field(mod, RD, "curr_file", [nf])
-            cut = {(c.block.id, x) for x in c.block.succs}
-            skipped = []
-            for st in stores:
-                if st.block.id == c.block.id:
+        inside = F.edges_value_in(ctype, {START, NORMAL})            # edges on which the type is known to be START or NORMAL (if-chains and switches alike)
+        def refuted_on(b_, s_, k):
+            for f in F.on_edge(b_, s_):          # facts available on the edge (the test of START may lie on an earlier edge than that of NORMAL)
+                if M.match(ctype, f[1], {}) is None:
                     continue
-                if F.reaches_avoiding(0, st.block.id, cut):
-                    # a path reaches the next curr_file assignment without the advance: it must have refuted START and NORMAL
-                    for s_ in ps.at_block(st.block.id):
-                        if not (refuted(s_, "start") and refuted(s_, "normal")) and not (holds(s_, "start") or holds(s_, "normal")):
-                            skipped.append(s_)
-                        elif (holds(s_, "start") or holds(s_, "normal")) and not nf.dominates(c.block.id, st.block.id):
-                            # the state says START/NORMAL: then the path must have passed the call (checked by domination of the call block over
-                            # the part of the function that START/NORMAL paths take) - decided with path states below
-                            pass
-            rep.check(rid, not skipped, "the advance is bypassed only when the last entry was neither START nor NORMAL", c.where(),
-                      None if not skipped else "states %s reach the selection of the next entry without advancing" % show(skipped)[:3], function=nf.cname, obj="advance-always")
+                if (f[0] == "ne" and is_const(f[2]) and const_val(f[2]) == k) or (f[0] == "eq" and is_const(f[2]) and const_val(f[2]) != k) or \
+                        (f[0] == "in" and k not in f[2][1]):
+                    return True
+            return False
+        outside = {(b_.id, s_) for b_ in nf.blocks for s_ in b_.succs if refuted_on(b_.id, s_, START) and refuted_on(b_.id, s_, NORMAL)}
+        for c in calls:
+            fs = F.at_inst(c)
+            ok = M.find_fact(("eq", ctype, START), fs)[0] is not None or M.find_fact(("eq", ctype, NORMAL), fs)[0] is not None or \
+                not F.reaches_avoiding(0, c.block.id, inside)
+            rep.check(rid, ok, "the input is advanced only under curr_file_type == START or == NORMAL", c.where(),
+                      None if ok else "the advance is reachable without that test: after a re-presented directory (or a deferred link) the pending member would be skipped",
+                      function=nf.cname, obj="advance-only")
+            # ... and always then: the selection of the next entry (the stores to curr_file) is reachable round the call only across an edge
+            # that excludes START and NORMAL
+            cut = {(c.block.id, x) for x in c.block.succs} | set(outside)
+            sts = [st for st in stores_to_field(mod, RD, "curr_file", [nf]) if st.block.id != c.block.id]
+            bad = [st for st in sts if F.reaches_avoiding(0, st.block.id, cut)]
+            rep.check(rid, not bad and bool(sts), "the advance is bypassed only when the last entry was neither START nor NORMAL", c.where(),
+                      None if not bad else "the next entry can be selected at %s without advancing although the last entry may have been START / NORMAL: that member would be presented again" % bad[0].where(),
+                      function=nf.cname, obj="advance-always")
     rid = rep.rule(prefix + "R7b", "end_of_top_dir compares the next entry's path with the whole path of the directory on top of the stack (prefix length = its strlen)", 1)
     et = rep.need(rid, mod.fn("end_of_top_dir"), "function end_of_top_dir")
     if et:
@@ -91,9 +90,54 @@ def advance_rules(rep, ctx, mod, prefix=""):
             a_top = [k for k in (0, 1) if M.match(top, c.ops[k], {}) is not None]
             n = et.defn(M.strip(c.ops[2]))
             okn = n is not None and not n.is_param and n.op == "call" and mod.callee_cname(n) == "strlen" and M.match(top, n.ops[0], {}) is not None
+            if len(a_top) == 1 and not okn and n is not None and not n.is_param and n.op == "load":
+                # a cached length: a reader field that is only ever assigned 0 or strlen(path) of a header that is (becoming) the top of the stack
+                from ..ir import field_of_gep
+                g_ = et.defn(n.ops[0])
+                fo_ = field_of_gep(mod, g_) if g_ is not None and not g_.is_param and g_.op == "getelementptr" else None
+                if fo_ and fo_[0] == RD:
+                    sts_ = [st for f_ in mod.defined() for st in stores_to_field(mod, fo_[0], fo_[1], [f_])]
+                    def top_len(st):
+                        Ms = Matcher(st.fn)
+                        Fs = ctx.facts(st.fn)
+                        for s_, _fs in Fs.sources(st.ops[0]):
+                            if is_const(s_) and const_val(s_) == 0:
+                                continue
+                            e_ = Ms.match(("call", "strlen", [("load", ("field", HDR, "path", ("bind", "h")))]), s_, {})
+                            if e_ is None:
+                                return False
+                            h_ = Ms.strip(e_["h"], ("bitcast",))
+                            # h is what this function stores to dir_stack, or the current dir_stack
+                            is_top = Ms.match(("load", ("field", RD, "dir_stack", ANY)), e_["h"], {}) is not None or \
+                                any(Ms.strip(x.ops[0], ("bitcast",)) == h_ or Ms.equiv(x.ops[0], e_["h"]) for x in stores_to_field(mod, RD, "dir_stack", [st.fn]))
+                            if not is_top:
+                                return False
+                        return True
+                    okn = bool(sts_) and all(top_len(st) for st in sts_)
             rep.check(rid, len(a_top) == 1 and okn, "strncmp(next->path, top->path, strlen(top->path))", c.where(),
                       None if (len(a_top) == 1 and okn) else "the compared length is not the length of the directory's own path: a sibling whose name merely begins alike is taken to lie inside it "
                       "(or an entry inside it to lie outside), and the directory is re-presented at the wrong point", function=et.cname, obj="prefix-len")
+
+
+        # R7c: once the input is exhausted every directory still on the stack is handed out: end_of_top_dir may answer "not yet" (0) only when
+        # the stack is empty or an entry is still pending in the input - whatever the directory policy (it can be changed between members)
+        rid = rep.rule(prefix + "R7c", "end_of_top_dir answers 0 only with an empty directory stack or with an input entry still pending", 2)
+        F = ctx.facts(et)
+        inp = ("call", "lha_basic_reader_curr_file", [ANY])
+        nzero = 0
+        for r in rets(et):
+            for s_, fs in F.sources(r.ops[0]):
+                if is_const(s_) and const_val(s_) == 0:
+                    nzero += 1
+                    ok = M.find_fact(("eq", ("load", ("field", RD, "dir_stack", ANY)), 0), fs)[0] is not None or M.find_fact(("ne", inp, 0), fs)[0] is not None
+                    rep.check(rid, ok, "a 'not yet' answer lies behind dir_stack == NULL or a pending input entry", r.where(),
+                              None if ok else "0 can be returned with directories on the stack and the input exhausted: they are never re-presented, their permissions and times never applied",
+                              function=et.cname, obj="not-yet")
+                elif not is_const(s_):
+                    # a computed answer (the prefix comparison): it is reached only with a pending entry
+                    ok = M.find_fact(("ne", inp, 0), fs)[0] is not None
+                    rep.check(rid, ok, "the computed answer is used only with a pending input entry", r.where(), None, function=et.cname, obj="computed")
+        rep.check(rid, nzero >= 1, "'not yet' answers found", et.file, "%d" % nzero, function=et.cname, obj="sites")
 
 
 def run(tier, seed):
